@@ -301,6 +301,63 @@ validations:
 `)
 }
 
+func init() {
+	// 8: mappings that carry several body keys at once (and + or, and + propertyConstraints-less not, if/then next to
+	// and): whichever of them the parser honours, it must be the same one however the keys are ordered
+	c15Bases = append(c15Bases, `profile: c15 several body keys
+prefixes:
+  ex: http://ex.org/
+violation:
+  - both
+warning:
+  - inner
+validations:
+  both:
+    message: and next to or
+    targetClass: ex.T
+    and:
+      - propertyConstraints:
+          ex.p1:
+            minCount: 1
+      - propertyConstraints:
+          ex.p2:
+            minCount: 1
+    or:
+      - propertyConstraints:
+          ex.p3:
+            minCount: 1
+      - propertyConstraints:
+          ex.p1:
+            maxCount: 0
+  inner:
+    message: the same inside nested and not
+    targetClass: ex.T
+    propertyConstraints:
+      ex.c:
+        nested:
+          or:
+            - propertyConstraints:
+                ex.p4:
+                  minCount: 1
+            - propertyConstraints:
+                ex.p5:
+                  minCount: 1
+          and:
+            - propertyConstraints:
+                ex.p4:
+                  minCount: 1
+            - not:
+                and:
+                  - propertyConstraints:
+                      ex.p5:
+                        minCount: 1
+                or:
+                  - propertyConstraints:
+                      ex.p4:
+                        maxCount: 0
+`)
+}
+
 const apiExtNS = "http://a.ml/vocabularies/api-extension#"
 const coreNS = "http://a.ml/vocabularies/core#"
 
@@ -663,7 +720,7 @@ func c15Canon(text string) (string, error) {
 func init() {
 	Register(Meta{
 		ID: "C15", Level: "model_checking", LongCases: true,
-		Rule:        "state = profile YAML text; initial states = 8 base profiles (among them: sibling keys at every mapping level with nested two levels and and/or of three operands; three validations over three levels with placeholders and a user prefix bound to a default namespace; several quantified constraints under one propertyConstraints map; conditionals/negation/several constraints on one property; a custom domain property through a user prefix; Rego operands; 28 quantified siblings; the name of a default prefix bound to another namespace next to a user alias of the default namespace); transitions, every applicable (operator, position): swap two adjacent keys of any mapping, swap two adjacent items of any sequence (level lists, and/or operands, value lists), rename a user prefix consistently, replace a user prefix by a default prefix bound to the same namespace, plain/single/double quoting of any string scalar (keys included), flow<->block style of any collection, comment insertion, indent width, CRLF line ends, trailing blanks. Depth-bounded search deduplicated on the text; every successor is first validated to denote the same abstract profile (canonical form with IRIs expanded and collections unordered); every state's (conforms, result set with messages) on a data graph must equal the base spelling's.",
+		Rule:        "state = profile YAML text; initial states = 9 base profiles (among them: sibling keys at every mapping level with nested two levels and and/or of three operands; three validations over three levels with placeholders and a user prefix bound to a default namespace; several quantified constraints under one propertyConstraints map; conditionals/negation/several constraints on one property; a custom domain property through a user prefix; Rego operands; 28 quantified siblings; the name of a default prefix bound to another namespace next to a user alias of the default namespace; mappings that carry `and` and `or` at once); transitions, every applicable (operator, position): swap two adjacent keys of any mapping, swap two adjacent items of any sequence (level lists, and/or operands, value lists), rename a user prefix consistently, replace a user prefix by a default prefix bound to the same namespace, plain/single/double quoting of any string scalar (keys included), flow<->block style of any collection, comment insertion, indent width, CRLF line ends, trailing blanks. Depth-bounded search deduplicated on the text; every successor is first validated to denote the same abstract profile (canonical form with IRIs expanded and collections unordered); every state's (conforms, result set with messages) on a data graph must equal the base spelling's.",
 		Assumptions: []string{"block scalars do not occur in the base profiles (trailing-blank and CRLF rewrites would change them)"},
 	}, c15Gen, c15Run)
 }
